@@ -435,6 +435,39 @@ func vfFateCheck(c vfFateCase) error {
 	if os.Getenv("VERIF_DEBUG") != "" {
 		fmt.Printf("DEBUG ok=%v err=%v\nstdout:\n%s\nstderr:\n%s\nevents=%+v\n", rr.ok, rr.err, logP.String(), errP.String(), events)
 	}
+	// whenever Run comes back with a verdict it has printed the report: totals that account for every selected
+	// case once, and a FAILED line for each case that counts against success for a reason of its own
+	if rr.err == nil {
+		out := logP.String()
+		m := vfTotalsRe.FindStringSubmatch(out)
+		if m == nil {
+			return verifkit.Violf("run-totals-missing", "Run returned %v but printed no totals\ncase %+v\nstdout:\n%s\nstderr:\n%s", rr.ok, c, out, errP.String())
+		}
+		total, _ := strconv.Atoi(m[1])
+		passed, _ := strconv.Atoi(m[2])
+		failed, _ := strconv.Atoi(m[3])
+		couldNot, expectedN := 0, 0
+		if mm := vfCouldNotRe.FindStringSubmatch(out); mm != nil {
+			couldNot, _ = strconv.Atoi(mm[1])
+		}
+		if mm := vfExpectedRe.FindStringSubmatch(out); mm != nil {
+			expectedN, _ = strconv.Atoi(mm[1])
+		}
+		if total != len(c.Tests) || passed+failed+couldNot+expectedN != len(c.Tests) {
+			return verifkit.Violf("run-totals-do-not-add-up", "total %d, passed %d + failed %d + could-not-run %d + failed-as-expected %d, selected %d\ncase %+v\nstdout:\n%s", total, passed, failed, couldNot, expectedN, len(c.Tests), c, out)
+		}
+		for i, t := range c.Tests {
+			if !received[names[i]] {
+				continue // which of the unsent cases are named depends on where the client died
+			}
+			failedCase := t.Action == "deviate" || t.Action == "error" || t.Action == "feedback"
+			if (t.Marking == "none" && failedCase) || (t.Marking == "failing" && t.Action == "match") {
+				if !strings.Contains(out, "FAILED: "+names[i]+":") && !strings.Contains(out, "FAILED: "+names[i]+" was") {
+					return verifkit.Violf("run-failing-case-unnamed", "case %d (%s, marking %s) counts against success but no FAILED line names it\ncase %+v\nstdout:\n%s", i, t.Action, t.Marking, c, out)
+				}
+			}
+		}
+	}
 	if gotOK != wantOK {
 		return verifkit.Violf(fmt.Sprintf("run-verdict:%v-want-%v", gotOK, wantOK), "Run returned (%v, %v), the statement demands success=%v (%s)\ncase %+v\nreceived by client: %d of %d\nstdout:\n%s\nstderr:\n%s",
 			rr.ok, rr.err, wantOK, strings.Join(why, "; "), c, len(received), len(c.Tests), logP.String(), errP.String())
